@@ -315,7 +315,53 @@ def _shard(shard, seed, tier):
     return part
 
 
+def _shard_real(shard, seed, tier):
+    """The real thing (the checks run as root): `bin/pygopherd` started with every combination of
+    usechroot / setuid+setgid, both server types, TLS on with a root-only key outside the document root.
+    Afterwards the kernel's view of the process must be the configured one, and it must serve."""
+    from .. import deploy
+
+    part = core.Partial()
+    for chroot, drop, stype in shard:
+        srv = deploy.Server({"f.txt": b"inside\n", "d": {"g.txt": b"g\n"}}, {"chroot": chroot, "drop": drop, "servertype": stype, "tls": True}, handlers="default", tag="c19r")
+        bad = []
+        try:
+            if not srv.started:
+                bad.append(("no-start", "the server did not come up: %r" % srv.log()[-500:]))
+            else:
+                uids, gids = srv.ids()
+                if drop and (uids != (deploy.NOBODY_UID,) * 3 or gids != (deploy.NOBODY_GID,) * 3):
+                    bad.append(("ids-kept", "configured to run as nobody/nogroup, the process runs with uids %r gids %r (real, effective, saved)" % (uids, gids)))
+                if drop and srv.groups() not in ((), (deploy.NOBODY_GID,)):
+                    bad.append(("groups-kept", "supplementary groups after the drop: %r" % (srv.groups(),)))
+                if not drop and uids != (0, 0, 0):
+                    bad.append(("unconfigured-drop", "no setuid configured, yet uids are %r" % (uids,)))
+                if chroot:
+                    if srv.root_of_process() != os.path.realpath(srv.root):
+                        bad.append(("not-jailed", "usechroot = yes, the root directory of the process is %r" % srv.root_of_process()))
+                    elif not (srv.cwd_of_process() or "").startswith(os.path.realpath(srv.root)):
+                        bad.append(("cwd-outside-chroot", "the working directory of the jailed process is %r" % srv.cwd_of_process()))
+                elif srv.root_of_process() != "/":
+                    bad.append(("unconfigured-chroot", "usechroot = no, the root directory of the process is %r" % srv.root_of_process()))
+                for label, data, tls, want in (("plain", b"/f.txt\r\n", False, b"inside\n"), ("tls", b"/f.txt\r\n", True, b"inside\n"), ("tls-menu", b"/d\r\n", True, b"g.txt"), ("https", b"GET /d/g.txt HTTP/1.0\r\n\r\n", True, b"g\n")):
+                    got, err = srv.fetch(data, tls)
+                    if err or want not in got:
+                        bad.append(("does-not-serve", "after start-up (chroot=%s, drop=%s, %s) the %s request is answered %r %s; log: %r" % (chroot, drop, stype, label, got[:80], err or "", srv.log()[-300:])))
+        finally:
+            srv.stop()
+        part.evaluations += 1
+        part.transitions += 5
+        part.state("real", chroot, drop, stype)
+        part.outcome("real", chroot, drop, stype, tuple(b[0] for b in bad))
+        for cls, det in bad:
+            part.violation("real|chroot=%d|drop=%d|%s|%s" % (chroot, drop, stype, cls), det, {"real": True, "chroot": chroot, "drop": drop, "stype": stype})
+    return part
+
+
 def replay(case):
+    if case.get("real"):
+        p = _shard_real([(case["chroot"], case["drop"], case["stype"])], 0, "quick")
+        return (p.violations[0][0].rsplit("|", 1)[1], p.violations[0][1]) if p.violations else None
     fa = tuple(case["fault"]) if case["fault"] else None
     trace, outcome, final_root, got, docroot = run_startup(case["mode"], case["usechroot"], case["setuid"], case["setgid"], case["tls"], fa, case.get("detach", False), case.get("euid", 0), case.get("spelling"), case.get("cwd", "elsewhere"))
     bad = judge(case["mode"], case["usechroot"], case["setuid"], case["setgid"], case["tls"], fa, trace, outcome, final_root, got, docroot, case.get("cwd", "elsewhere"))
@@ -323,6 +369,7 @@ def replay(case):
 
 
 def run(ck):
+    ck.pmap(_shard_real, [[(c, d, st)] for c in (False, True) for d in (False, True) for st in ("ForkingTCPServer", "ThreadingTCPServer")])
     ck.pmap(_shard, core.chunks(_cases(), core.NPROC))
     ck.rule = ("every accepted spelling of the usechroot boolean and five start directories (elsewhere, a sibling whose name starts like the root's, inside the root, the root, its parent) without faults; all 8 combinations of usechroot/setuid/setgid x {init_security alone; initialize() with TLS off and on} x {no fault, each occurrence of each privileged call (getpwnam, getgrnam, chroot, chdir, setgroups, setregid, setreuid) "
                "and of bind / certificate load raising}; the recorded call trace is judged by a reference model of the required order; distinct = (configuration, fault, verdict)")
